@@ -307,7 +307,7 @@ func (p *provider) setSingleton(key instanceKey, instance any) {
 	p.singletonKeysMu.Unlock()
 
 	// Track if disposable
-	if d, ok := instance.(Disposable); ok {
+	if d, ok := disposableOf(instance); ok {
 		p.disposablesMu.Lock()
 		p.disposables = append(p.disposables, d)
 		p.disposablesMu.Unlock()
